@@ -120,11 +120,13 @@ P = {
   text="PROVED for all integers / all byte strings / all token lists: script-number codec bijection at spec and at "
        "code level (MPI route), builder = reference minimal encoding (incl. bool and non-coercible element kinds), "
        "iter∘build = canonical tokens, build∘iter∘build = build, raw iteration is a partition with the truncated-push "
-       "remainder and its carried data, every predicate = an independent generative characterisation (concatenation "
+       "remainder and its carried data (carried data: theorem about the model; T2 compares the error family only), every predicate = an independent generative characterisation (concatenation "
        "of valid operations / fixed byte layouts), sigop counts (both modes) = Core's GetOp-based count, and the "
        "parser-free compositional laws (SigOpLaws) hold and determine the count uniquely (sigops_laws_hold, "
        "sigops_laws_unique); buffer-protocol elements are spliced raw (build_buffer_raw, outside the read-back "
-       "domain); CScriptOp table growth across calls modelled (cscriptOpNewSeq). T2: all scripts ≤ 2 bytes exhaustively through every observer, token lists through every "
+       "domain); CScriptOp(n) for n in 0..255 returns the instance of that opcode "
+       "(opcode_lookup_in_table; T2 on 0..255); calls outside 0..255 and the growth of the private instance table are "
+       "statements about the model only, run out-of-domain in T2 (never an obligation). T2: all scripts ≤ 2 bytes exhaustively through every observer, token lists through every "
        "iterable and element kind, bytes/bytearray.",
   note=TB + "bn2vch/encode_op_pushdata fail at 2^32-byte encodings; theorems state that boundary.",
   tech="Lean 4 proof (structural induction over scripts) + model/implementation correspondence (exhaustive short scripts)"),
